@@ -810,6 +810,7 @@ fn show_built(r: &Result<TerminationModel, CompassConfigurationError>) -> String
         Err(CompassConfigurationError::ExpectedFieldWithType(_, _)) => "Err config: expected type".into(),
         Err(CompassConfigurationError::UnknownModelNameForComponent(_, _, _)) => "Err config: unknown model name".into(),
         Err(CompassConfigurationError::ConversionError(_)) => "Err config: duration".into(),
+        Err(CompassConfigurationError::UserConfigurationError(_)) => "Err config: user configuration".into(),
         Err(e) => format!("Err other: {}", e),
     }
 }
